@@ -90,14 +90,17 @@ def leaf_from_spec(spec):
             if (reg_reset & mask) and (reg_reset & mask) != ((reset << off) & mask):
                 ambiguous = True
             preset = (preset & ~mask) | ((reset << off) & mask)
-        enums = {}
+        enums, all_names, name_value = {}, [], {}
         for e in b.get("values", []) or []:
             try:
                 enums.setdefault(to_int(e.get("value")), e.get("name"))
+                all_names.append(e.get("name"))
+                name_value.setdefault(str(e.get("name")), to_int(e.get("value")))
             except ValueError:
                 pass
         fields.append({"name": name, "uid": b.get("id", ""), "off": off, "width": w, "reset": bits_of(reset), "shr": shr if shr is not None else 0,
-                       "shr_unknown": shr is None, "hidden": name == hidden_name, "enums": enums, "decl_off": b.get("offset")})
+                       "shr_unknown": shr is None, "hidden": name == hidden_name, "enums": enums, "decl_off": b.get("offset"),
+                       "enum_names_unique": len(set(all_names)) == len(all_names), "name_value": name_value})
         off += w
     return {"name": spec.get("name", "N/A"), "uid": spec.get("id", ""), "kind": "leaf", "width": width, "reverse": False, "parent": 0, "subs": [], "rso": False,
             "fields": fields, "off": to_int(spec.get("offset_int", 0)), "hidden": to_bool(spec.get("is_reserved", False)),
@@ -113,7 +116,7 @@ def layout_from_files(spec_file, grouped, computed=None):
     with open(spec_file, "r", encoding="utf-8") as f:
         spec = json.load(f)
     grouped = grouped or []
-    regs, by_uid, notes = [], {}, []
+    regs, by_uid, notes, unresolved = [], {}, [], []
     group_idx = {}
     seen_off, seen_name = {}, set()
     for g in spec.get("groups", []):
@@ -160,6 +163,7 @@ def layout_from_files(spec_file, grouped, computed=None):
         ri = by_uid.get(reg_uid)
         if ri is None:
             notes.append(f"computed register {reg_uid} not in the register file")
+            unresolved.append(f"computed register {reg_uid}")
             continue
         for fuid, method in flds.items():
             fi = next((k for k, fl in enumerate(regs[ri - 1]["fields"], 1) if fl["uid"] == fuid), 0)
@@ -170,7 +174,10 @@ def layout_from_files(spec_file, grouped, computed=None):
                 regs[ri - 1]["fields"][fi - 1]["computed"] = True
             else:
                 notes.append(f"computed bit-field {fuid} not in register {reg_uid}")
-    return {"regs": regs, "notes": notes, "by_uid": by_uid}
+                unresolved.append(f"computed bit-field {fuid}")
+            if method not in COMPUTE:
+                unresolved.append(f"compute rule {method}")
+    return {"regs": regs, "notes": notes, "by_uid": by_uid, "unresolved": unresolved}
 
 
 def mark_overlaps(lay):
@@ -205,7 +212,9 @@ def tla_layout(lay):
     return {"regs": regs, "size": lay.get("size", 0), "hasbin": bool(lay.get("hasbin", True)), "seal": lay.get("seal", []), "sizefld": lay.get("sizefld", {"r": 0, "f": 0}),
             "kind": lay.get("kind", ""), "leaves": [i for i, r in enumerate(regs, 1) if r["kind"] == "leaf"],
             "computed": [i for i, r in enumerate(regs, 1) if r["kind"] == "leaf" and r["comp"] != ""], "hascond": any(r["cond"]["c"] != 0 for r in regs),
-            "free": [i for i, r in enumerate(regs, 1) if r["kind"] == "leaf" and (r["binfree"] or r["presetdc"])]}
+            "free": [i for i, r in enumerate(regs, 1) if r["kind"] == "leaf" and (r["binfree"] or r["presetdc"])],
+            "ovl": [i for i, r in enumerate(regs, 1) if r["kind"] == "leaf" and r["binfree"]], "nbad": len(lay.get("unresolved", [])),
+            "dupenum": [i for i, r in enumerate(lay["regs"], 1) if any(not f.get("enum_names_unique", True) for f in r["fields"])]}
 
 
 # ------------------------------------------------------------------ adapters
@@ -390,6 +399,9 @@ class PfrArea(Area):
                     lay["seal"] = sealed
                 else:
                     lay["notes"].append("seal range does not consist of seal_count aligned 32-bit registers")
+                    lay["unresolved"].append("seal range")
+            else:
+                lay["unresolved"].append(f"seal_start {start}")
         rot = next((i for i, r in enumerate(lay["regs"], 1) if r["name"] == "ROTKH" and r["parent"] == 0), 0)
         lay["rotkh"] = rot
         try:
